@@ -24,7 +24,7 @@ import (
 
 // C11 — cancelled or failed replication requests do not wedge later replication.
 
-var c11Points = []string{"never", "before-call", "replicator.slot.before", "replicator.slot.dequeued", "parked-fetch", "replicator.fetch.done", "replicator.entry.beforeDone", "replicator.loadend.emit", "replicator.load.registered", "failed-fetch", "failed-parent", "aborted-parent"}
+var c11Points = []string{"never", "before-call", "replicator.slot.before", "replicator.slot.dequeued", "parked-fetch", "replicator.fetch.done", "replicator.entry.beforeDone", "replicator.loadend.emit", "replicator.load.registered", "failed-fetch", "failed-parent", "aborted-parent", "returned-early"}
 
 type ReqC11 struct {
 	Heads []int  `json:"heads"` // indices into the honest entries (mod len)
@@ -150,7 +150,9 @@ func execC11(c CaseC11) *Outcome {
 	}
 
 	abortedWithWork := false
+	returnedEarly := false
 	for ri, rq := range c.Reqs {
+		returnedEarly = false
 		var heads []ipfslog.Entry
 		for _, hi := range rq.Heads {
 			heads = append(heads, entryOf(honest[hi%len(honest)]))
@@ -164,7 +166,7 @@ func execC11(c CaseC11) *Outcome {
 		arrivals := 0
 		fired := false
 		remove := func() {}
-		if rq.Point != "never" && rq.Point != "before-call" && rq.Point != "parked-fetch" && rq.Point != "failed-fetch" && rq.Point != "failed-parent" && rq.Point != "aborted-parent" {
+		if rq.Point != "never" && rq.Point != "before-call" && rq.Point != "parked-fetch" && rq.Point != "failed-fetch" && rq.Point != "failed-parent" && rq.Point != "aborted-parent" && rq.Point != "returned-early" {
 			remove = world.AddHook(func(name string, subject interface{}, args []interface{}) {
 				if name != rq.Point || subject != interface{}(v.Replicator()) {
 					return
@@ -221,6 +223,45 @@ func execC11(c CaseC11) *Outcome {
 				}
 			}
 			pv.SetGate(false)
+		case "returned-early":
+			// a synchronous request (LoadMoreFrom returns when the replicator's Load returns) is cancelled while its
+			// n-th block read is outstanding, and that read does not notice the cancellation until it completes.
+			// If the call nevertheless returns, the caller is entitled to make its next request at once: the final
+			// request below is then made while the read is still outstanding, and must still bring everything
+			pv.SetGateHard()
+			ret := make(chan struct{})
+			hs, _ := cloneHeads(heads)
+			go func() {
+				world.LoadMoreFrom(rctx, v, hs)
+				close(ret)
+			}()
+			if world.WaitFor(func() bool { return len(pv.Parked()) > 0 }, 2*time.Second) {
+				for k := 1; k < rq.Nth; k++ {
+					pv.ReleaseParked(0)
+					time.Sleep(300 * time.Microsecond)
+				}
+				if world.WaitFor(func() bool { return len(pv.Parked()) > 0 }, 200*time.Millisecond) {
+					abortedWithWork = true
+					cancel()
+					select {
+					case <-ret:
+						// returned with a read still outstanding: the next request follows immediately
+						returnedEarly = true
+					case <-time.After(300 * time.Millisecond):
+					}
+				}
+			}
+			if returnedEarly && ri == len(c.Reqs)-1 {
+				// (the read is released after the final request has been made, see below)
+				o.Labels = append(o.Labels, "request-returned-with-a-read-outstanding")
+			} else {
+				returnedEarly = false
+				pv.SetGate(false)
+				select {
+				case <-ret:
+				case <-time.After(20 * time.Second):
+				}
+			}
 		case "failed-parent", "aborted-parent":
 			// exactly one block is not obtained - the n-th parent link of an entry with several parents (an entry
 			// written after two writers' branches were merged), every other block of the request is served: the read
@@ -287,7 +328,9 @@ func execC11(c CaseC11) *Outcome {
 			_ = v.Sync(rctx, heads)
 		}
 		// let the request run out (or wedge): the final request decides
-		cl.W.WaitQuiescent([]iface.Store{v}, nil, 2*time.Second)
+		if !returnedEarly {
+			cl.W.WaitQuiescent([]iface.Store{v}, nil, 2*time.Second)
+		}
 		remove()
 		cancel()
 		_ = ri
@@ -338,6 +381,11 @@ func execC11(c CaseC11) *Outcome {
 	}
 	if err := v.Sync(ctx, finalHeads); err != nil {
 		return fail("the final, uncancelled Sync returned %v", err)
+	}
+	if returnedEarly {
+		// the previous request had returned with a block read outstanding: it completes only now
+		time.Sleep(2 * time.Millisecond)
+		pv.SetGate(false)
 	}
 	err = cl.W.WaitClaim("every entry reachable from the heads of the final request is visible", func() bool {
 		have := hashSetOf(v)
